@@ -209,9 +209,11 @@ fn u_proxy_ack(op: u32, class: usize) {
         let flags = match class { 2 => 0x1, 3 => 0x6, 4 => 0x15, _ => 0x5 };
         g::put_hdr(0, code, flags, 8);
         g::put64(12, ack_val);
-        g::G.rx_len = 20;
-        g::G.rx_closed = false;
+        // class 5: conformant ack header, then the peer closes the connection before the ack value arrives
+        g::G.rx_len = if class == 5 { 12 } else { 20 };
+        g::G.rx_closed = class == 5;
         g::G.rx_nfds = nfds;
+        g::G.rx_fd_call = 1;
     }
     let req = match op {
         6 => BackendReq::SHARED_OBJECT_ADD,
@@ -243,6 +245,9 @@ fn u_proxy_ack(op: u32, class: usize) {
         assert!(g::G.tx_first_nfds == with_fd as usize && !g::G.tx_late_fds);
         assert!(!g::G.blocked, "C18: no indefinite wait");
         let conformant = class == 0 && nfds == 0;
+        if class == 5 {
+            assert!(g::G.fd_state[0] != g::FD_OPEN, "C09: descriptor attached to an acknowledgement cut short by the end of the stream is closed");
+        }
         if ok {
             assert!(conformant && ack_val == 0, "C18/C06: success only for a zero ack that answers this request");
         }
@@ -282,3 +287,5 @@ u_px!(c18_u_ack_noreplyflag, 6, 2);
 u_px!(c18_u_ack_version2, 6, 3);
 // @harness props=C18,C06 tier=thorough reach=off timeout=500 bound="shared_object_add answered by an ack of class reservedbit: must be refused" stubs="raw_recvmsg/raw_sendmsg (ghost socket), OwnedFd::drop, handle_alloc_error"
 u_px!(c18_u_ack_reservedbit, 6, 4);
+// @harness props=C18,C06,C08,C09,C03 tier=quick reach=off timeout=500 bound="shmem_unmap under REPLY_ACK answered by a conformant ack header after which the peer closes the connection (no ack value): must be an error, never success; 0..=1 descriptors on the header" stubs="raw_recvmsg/raw_sendmsg (ghost socket), OwnedFd::drop, handle_alloc_error"
+u_px!(c18_u_ack_cut_by_eof, 10, 5);
